@@ -130,6 +130,8 @@ class Unit:
                 if a[0] != self.id:
                     raise Undecided('template unit id mismatch')
                 for kv in a[1:]:
+                    if '=' not in kv:
+                        continue   # flags such as `disabled` (read by check.py)
                     k, v = kv.split('=')
                     if k == 'props':
                         self.props = v.split(',')
